@@ -52,6 +52,7 @@ JudgeRun(g, s, ref) ==
       a == FoldLeft(step, [delivered |-> <<>>, viol |-> {}, stall |-> 0, finished |-> FALSE, sawerr |-> FALSE, space_short |-> FALSE], Range1(ncalls))
       \* I5 completion: a valid stream, fully supplied, with space always offered, must finish
       v5 == IF s.end.why = "fault" THEN {<<ncalls, "C05-memory-fault-in-call">>}
+            ELSE IF s.end.why = "stalled" THEN {<<ncalls, "I6-no-progress-with-input-and-space-available">>}
             ELSE IF ref.tag = "Valid" /\ ~lenient /\ ~a.finished /\ ~a.space_short /\ s.complete_supply
                  THEN {<<ncalls, "I5-valid-stream-not-finished-" \o s.end.why>>} ELSE {}
       \* an invalid single-fault stream must be reported, with the documented class
